@@ -238,9 +238,11 @@ Definition prox_arg_scaling (pf : factory) (c : T) : factory :=
     if neqb c nzero then Ok x
     else rmap (vscal (none_ / c)) (pf (sig_scale (c * c) s) (vscal c x)).
 
-(* proximal_quadratic_perturbation(prox, a, u)(sigma), scalar sigma:
+(* proximal_quadratic_perturbation(prox, a, u)(sigma):
    const = 1/sqrt(2 sigma a + 1);
-   const * proximal_arg_scaling(prox, const)(sigma) (const * x - sigma*const*u) *)
+   const * proximal_arg_scaling(prox, const)(sigma) (const * x - sigma*const*u)
+   scalar sigma, or an element-valued sigma (then const is an array and every product is element-wise; the
+   array-scaling branch of proximal_arg_scaling has no scaling == 0 shortcut) *)
 Definition prox_quad_pert (pf : factory) (a : T) (u : option (list T)) : factory :=
   fun s x =>
     if nltb a nzero then Err EValue else
@@ -251,15 +253,24 @@ Definition prox_quad_pert (pf : factory) (a : T) (u : option (list T)) : factory
                      | Some u => vsub (vscal c x) (vscal (sg * c) u)
                      | None => vscal c x end in
         rmap (vscal c) (prox_arg_scaling pf c s inner)
-    | _ => Err EOther
+    | SVec v =>
+        let c := map (fun sg => none_ / nsqrt (sg * of_Z 2 * a + none_)) v in
+        let inner := match u with
+                     | Some u => vsub (vmul c x) (vmul (vmul v c) u)
+                     | None => vmul c x end in
+        rmap (fun q => vmul c (vmul (map (fun ci => none_ / ci) c) q))
+             (pf (SVec (vmul v (vmul c c))) (vmul c inner))
+    | SPair _ _ => Err EOther
     end.
 
-(* proximal_convex_conj(prox)(sigma) = I - sigma * prox(1/sigma)(x/sigma), scalar sigma *)
+(* proximal_convex_conj(prox)(sigma) = I - sigma * prox(1/sigma)(x/sigma); sigma scalar or element-valued *)
 Definition prox_convex_conj (pf : factory) : factory :=
   fun s x =>
     match s with
     | SScal sg => rmap (fun q => vsub x (vscal sg q)) (pf (SScal (none_ / sg)) (vscal (none_ / sg) x))
-    | _ => Err EOther
+    | SVec v => let vi := map (fun sg => none_ / sg) v in
+                rmap (fun q => vsub x (vmul v q)) (pf (SVec vi) (vmul vi x))
+    | SPair _ _ => Err EOther
     end.
 
 (* combine_proximals(f1, f2)(sigma): scalar -> same step for all; sequence -> zip *)
